@@ -170,7 +170,7 @@ fn alphabets() -> Vec<(&'static str, Vec<u8>)> {
 // ---------------------------------------------------------------------------------------------
 
 pub fn f64s() -> Vec<f64> {
-    vec![0.0, 1.0, f64::NAN, f64::INFINITY, f64::NEG_INFINITY, -0.0, 5e-324, 1e-9, 9007199254740992.0 / 90000.0, 1e15, 1e300, f64::MAX, -1.0, 2.0, 0.5, (9223372036854775808.0 - 90000.0) / 90000.0, (9223372036854775808.0 + 90000.0) / 90000.0]
+    vec![0.0, 1.0, f64::NAN, f64::INFINITY, f64::NEG_INFINITY, -0.0, 5e-324, 1e-9, 9007199254740992.0 / 90000.0, 1e15, 1e300, f64::MAX, -1.0, 2.0, 0.5, (18446744073709551615.0 - 1.0e6) / 90000.0, (9223372036854775808.0 - 90000.0) / 90000.0, (9223372036854775808.0 + 90000.0) / 90000.0]
 }
 
 fn video_datas(c: VCodec) -> Vec<(&'static str, Vec<u8>)> {
@@ -363,6 +363,9 @@ fn prefixes() -> Vec<(&'static str, Vec<Call>)> {
         ("after-finish", vec![Call::Wv(0.0, 1, true), Call::FinIn]),
         // first frame decoded later than presented, audio already running
         ("after-late-dts-key-audio", vec![Call::Wvd(0.0, 1.0, 1, true), Call::Wa(0.25, 1)]),
+        // a first frame within 2^31 ticks of the largest representable tick (a saturating later
+        // timestamp is then an acceptable next frame)
+        ("after-near-max-key", vec![Call::Wv((18446744073709551615.0 - 1.0e6) / 90000.0, 1, true)]),
         ("after-early-dts-key-audio", vec![Call::Wvd(1.0, 0.0, 1, true), Call::Wa(1.0, 1)]),
     ]
 }
